@@ -46,6 +46,9 @@ func genCase(t *rapid.T) Case {
 			}
 		}
 	}
+	if d == "mysql" {
+		c.Flavour = rapid.SampledFrom([]string{"", "", "mysql8", "mysql57", "maria", "tidb"}).Draw(t, "flavour")
+	}
 	if rapid.IntRange(0, 5).Draw(t, "span") == 0 {
 		spans := []string{"add-schema", "drop-schema", "modify-schema", "modify-other-schema", "two-schemas", "two-schemas-differing-by-case", "modify-other-schema-differing-by-case"}
 		c.Span = rapid.SampledFrom(spans).Draw(t, "spankind")
@@ -63,11 +66,11 @@ func mkCheck(col *ev.Collector) func(Case) error {
 		sort.Strings(ks)
 		cls := fmt.Sprintf("%s/%s/q=%s", c.Dialect, c.Scenario, c.Qualifier)
 		if c.Span != "" {
-			cls = fmt.Sprintf("%s/span=%s/q=%s/rejected=%v", c.Dialect, c.Span, c.Qualifier, out.Rejected)
+			cls = fmt.Sprintf("%s%s/span=%s/q=%s/rejected=%v", c.Dialect, c.Flavour, c.Span, c.Qualifier, out.Rejected)
 		}
 		col.Class(cls)
 		if out.TableRef > 0 || c.Span != "" {
-			col.NonTrivial(fmt.Sprintf("%s|%s|%s|%d|%s|%s", c.Dialect, c.Scenario, c.Qualifier, c.Mode, strings.Join(ks, ","), c.Span))
+			col.NonTrivial(fmt.Sprintf("%s|%s|%s|%d|%s|%s", c.Dialect, c.Scenario, c.Qualifier, c.Mode, strings.Join(ks, ","), c.Span+c.Flavour))
 		}
 		col.Sample(cls, Case{Dialect: c.Dialect, Scenario: c.Scenario, Edits: c.Edits, Qualifier: c.Qualifier, Mode: c.Mode, Span: c.Span})
 		return err
@@ -102,6 +105,14 @@ func TestCheck(t *testing.T) {
 				for _, sp := range spans {
 					if !ev.Each(col, "enumerated", Case{Dialect: d, Base: base, Scenario: "create", Qualifier: q, Mode: mode, Span: sp}, check, known) {
 						return
+					}
+					// the planners of the MySQL-family drivers (TiDB plans every change on its own)
+					if d == "mysql" {
+						for _, fl := range []string{"mysql8", "mysql57", "maria", "tidb"} {
+							if !ev.Each(col, "enumerated", Case{Dialect: d, Base: base, Scenario: "create", Qualifier: q, Mode: mode, Span: sp, Flavour: fl}, check, known) {
+								return
+							}
+						}
 					}
 				}
 			}
